@@ -18,12 +18,17 @@ import (
 
 type JRow struct {
 	ID int64
-	S  string `parquet:",dict"`
-	O  *string
-	L  []int32
-	F  float64
-	B  bool   `parquet:",optional"`
-	U  []byte `parquet:",optional"`
+	// D: dictionary indexes alternate for 8 rows, then 7 equal ones and a
+	// different one, then alternate again (bit-packed / run boundary of the
+	// hybrid RLE encoding, where kernels of different builds could cut runs
+	// differently)
+	D string `parquet:",dict"`
+	S string `parquet:",dict"`
+	O *string
+	L []int32
+	F float64
+	B bool   `parquet:",optional"`
+	U []byte `parquet:",optional"`
 }
 
 func c17Rows(seed, n int) []JRow {
@@ -31,6 +36,13 @@ func c17Rows(seed, n int) []JRow {
 	for i := range rows {
 		k := seed*1000 + i
 		r := JRow{ID: int64(k), S: fmt.Sprintf("s-%d-%d", seed, i%5), F: float64(k) / 8, B: i%3 == 0}
+		r.D = []string{"d0", "d1"}[i%2]
+		if (i/8)%3 == 1 {
+			r.D = "d0"
+			if i%8 == 7 {
+				r.D = "d1"
+			}
+		}
 		if i%2 == 0 {
 			r.O = ptrTo(fmt.Sprintf("o%d", k))
 		}
@@ -77,7 +89,9 @@ var c17Jobs = []c17Job{
 	}},
 }
 
-var c17Prior = []string{"complete(small)", "complete(large)", "aborted-after-write", "sink-fails", "flush-only", "close-twice", "complete(empty)"}
+var c17Prior = []string{"complete(small)", "complete(large)", "aborted-after-write", "sink-fails", "flush-only", "close-twice", "complete(empty)",
+	// a few rows written (fewer than any buffering threshold), then the writer is reset without Close
+	"aborted-after-small-write"}
 
 type failAfter struct {
 	n    int
@@ -134,10 +148,10 @@ func c17Run(x *engine.X) {
 		x.Nontrivial(x.Describe())
 	}
 	shape := fmt.Sprintf("job=%s;container=%s", job.name, container)
-	J := c17Rows(1, 20)
+	J := c17Rows(1, 26)
 	priorRows := func(kind string) []JRow {
 		switch kind {
-		case "complete(small)":
+		case "complete(small)", "aborted-after-small-write":
 			return c17Rows(2, 3)
 		case "complete(large)":
 			return c17Rows(3, 70)
@@ -175,7 +189,7 @@ func c17Run(x *engine.X) {
 				case "complete(small)", "complete(large)", "complete(empty)":
 					writeRowsOneByOne(w, priorRows(h))
 					w.Close()
-				case "aborted-after-write":
+				case "aborted-after-write", "aborted-after-small-write":
 					writeRowsOneByOne(w, priorRows(h))
 				case "sink-fails":
 					w.Reset(&failAfter{n: 200})
@@ -220,7 +234,7 @@ func c17Run(x *engine.X) {
 				case "complete(small)", "complete(large)", "complete(empty)":
 					wr(w, priorRows(h))
 					w.Close()
-				case "aborted-after-write":
+				case "aborted-after-write", "aborted-after-small-write":
 					wr(w, priorRows(h))
 				case "sink-fails":
 					w.Reset(&failAfter{n: 200})
@@ -286,7 +300,7 @@ func c17Run(x *engine.X) {
 			case "complete(small)", "complete(large)", "complete(empty)":
 				copyAll(w, shared)
 				w.Close()
-			case "aborted-after-write":
+			case "aborted-after-write", "aborted-after-small-write":
 				copyAll(w, shared)
 			case "sink-fails":
 				w.Reset(&failAfter{n: 200})
@@ -368,7 +382,7 @@ func c17Run(x *engine.X) {
 			case "complete(small)", "complete(large)", "complete(empty)":
 				w.Write(priorRows(h))
 				w.Close()
-			case "aborted-after-write":
+			case "aborted-after-write", "aborted-after-small-write":
 				w.Write(priorRows(h))
 			case "sink-fails":
 				w.Reset(&failAfter{n: 200})
